@@ -16,8 +16,9 @@ class Check(PropertyCheck):
     pid = "C15"
     props_module = "Properties.Properties_C15"
     extra_targets = ["Extract/ExtractDec.vo"]
-    gen_files = declib.DEC_GEN
-    trusted_base = declib.DEC_TRUSTED
+    gen_files = declib.DEC_GEN + ["ParseTab.v"]
+    extra_props = ["Properties.Properties_C15parse"]
+    trusted_base = declib.PARSE_TRUSTED + declib.DEC_TRUSTED
     assumptions = ["the pairing of a decoded block with the header CRC it is compared with, at process level, is property C10"]
 
     def gen(self, n):
